@@ -2306,6 +2306,123 @@ def gen_linkto_programs(r, n):
     return progs
 
 
+def gen_link_reader_programs():
+    """The caller READS the target through the linker handle before committing, the way callers read: `read_exact` of a
+    whole 3 MiB target (several polls over one buffer on the async side), `read_to_end` into a vector that already holds
+    something, a few bytes and then the rest.  The commit's integrity is the digest of the target, the recorded size
+    its length, and the key reads its bytes."""
+    progs = []
+    big = bytes((j * 5 + j // 253) % 256 for j in range(3 << 20))
+    small = b"a small link target, read to the end"
+    for fl in "sa":
+        for name, d, how in (("exact-3mib", big, "exact"), ("readall-prefix", small, "all"), ("read-then-all", small, "some-all"),
+                             ("undeclared-readall", small, "undeclared")):
+            key = b"lr-" + name.encode()
+            ops = [f"put tgt/{name}.bin {hx(d)}"]
+            if how == "undeclared":
+                ops.append(f"lopen {fl} c0 L1 {hx(key)} abs:tgt/{name}.bin algo=sha256 size=- sri=-")
+            else:
+                ops.append(f"lopen_auto {fl} c0 L1 {hx(key)} abs:tgt/{name}.bin")
+            exp = []
+            if how == "exact":
+                ops.append(f"lreadexact L1 {len(d)}"); exp.append((len(ops) - 1, d))
+            elif how == "some-all":
+                ops.append("lread L1 4"); exp.append((len(ops) - 1, d[:4]))
+                ops.append(f"lreadall L1 {hx(d[:4])}"); exp.append((len(ops) - 1, d[4:]))
+            else:
+                ops.append(f"lreadall L1 {hx(b'HEADER:' + d[:9])}"); exp.append((len(ops) - 1, d))
+            ops.append("lcommit L1"); ci = len(ops) - 1
+            ops += [f"metadata s c0 {hx(key)}", f"read {fl} c0 {hx(key)}", f"cat tgt/{name}.bin"]
+            progs.append(Program(f"linkread-{name}-{fl}", ops, model=(d is not big),
+                                 tags={"linkread": ci, "reads": exp, "data": d, "both_binaries": True, "variety": ("linkread", name, fl)}))
+    return progs
+
+
+def mon_link_reader(rr):
+    out = []
+    t = rr.prog.tags
+    ci, d = t["linkread"], t["data"]
+    if len(rr.impl) < len(rr.prog.ops):
+        return out
+    sig = {"mode": "linkread", "how": t["variety"][1]}
+    for i, want in t["reads"]:
+        res = toks(rr.impl[i])
+        if res[0] != "ok" or unhx(res[1] if len(res) > 1 else "x") != want:
+            out.append(Failure("wrong_bytes", i, f"`{rr.prog.ops[i][:30]}` through the linker -> {' '.join(res[:2])[:40]} instead of {len(want)} bytes", sig=sig))
+    res = toks(rr.impl[ci])
+    if res[0] != "ok":
+        return out + [Failure("link_failed", ci, f"commit of a linker whose target was read through it -> {' '.join(res[:4])[:60]}", sig=sig)]
+    if unhx(res[1]).decode(errors="replace") != L.sri_of("sha256", d):
+        out.append(Failure("wrong_integrity", ci, "the commit's integrity is not the digest of the target", sig=sig))
+    m = meta_of_line(rr.impl[ci + 1])
+    if not isinstance(m, dict) or m.get("size") != len(d):
+        out.append(Failure("wrong_size_recorded", ci + 1, f"the entry records size {m.get('size') if isinstance(m, dict) else m}, the target has {len(d)} bytes", sig=sig))
+    rd = toks(rr.impl[ci + 2])
+    if rd[0] != "ok" or unhx(rd[1]) != d:
+        out.append(Failure("link_unreadable", ci + 2, f"read of the key after the commit -> {' '.join(rd[:3])[:50]}", sig=sig))
+    return out
+
+
+def gen_link_vs_written_programs():
+    """Links next to WRITTEN content and next to other links of the same bytes - also when the link commit is REJECTED
+    (the linker makes its symlink before the size / integrity checks): a regular content file is never turned into a
+    link (its key survives the linked file's removal); a commit whose target leads INTO the address leaves the address
+    alone (no link onto itself); of two hard-linked paths linked under two keys the second stays readable when the
+    first path is removed."""
+    progs = []
+    d = b"bytes that are written AND linked"
+    st = sri_tok("sha256", d)
+    cp = "c0/" + L.content_rel(L.sri_of("sha256", d))
+    def decl(kind):
+        return {"ok": "algo=sha256 size=- sri=-", "size": f"algo=sha256 size={len(d) + 1} sri=-",
+                "sri": f"algo=sha256 size=- sri={hx(L.sri_of('sha256', d + b'?').encode())}"}[kind]
+    for fl in "sa":
+        for kind in ("ok", "size", "sri"):
+            # (a) written first, then linked (perhaps rejected), then the linked file goes away
+            ops = [w_oneshot(fl, "sha256", b"written", d), f"put tgt/same.bin {hx(d)}",
+                   f"lopen {fl} c0 L1 {hx(b'linked')} abs:tgt/same.bin {decl(kind)}", "lcommit L1"]; ci = len(ops) - 1
+            ops += [f"stat {cp}", "del tgt/same.bin", f"read {fl} c0 {hx(b'written')}", f"read_hash {'a' if fl == 's' else 's'} c0 {st}"]
+            progs.append(Program(f"linkvs-written-{kind}-{fl}", ops,
+                                 tags={"linkvs": ci, "kind": kind, "data": d, "expect_stat": "file", "reads": [ci + 3, ci + 4],
+                                       "variety": ("linkvs", "written", kind, fl)}))
+            # (b) linked, then a commit whose target is the cache's own link for those bytes
+            ops = [f"put tgt/orig.bin {hx(d)}", f"link_to {fl} c0 {hx(b'first')} abs:tgt/orig.bin",
+                   f"lopen {fl} c0 L1 {hx(b'second')} abs:{cp} {decl(kind)}", "lcommit L1"]; ci = len(ops) - 1
+            ops += [f"stat {cp}", "cat tgt/orig.bin", f"read {fl} c0 {hx(b'first')}", f"read_hash {'a' if fl == 's' else 's'} c0 {st}"]
+            progs.append(Program(f"linkvs-into-address-{kind}-{fl}", ops,
+                                 tags={"linkvs": ci, "kind": kind, "data": d, "expect_stat": "symlink", "reads": [ci + 3, ci + 4],
+                                       "variety": ("linkvs", "into", kind, fl)}))
+        # (c) two names of one file, linked under two keys; the first name is removed
+        ops = [f"put a/file.bin {hx(d)}", "hardlink a/file.bin b/file.bin", f"link_to {fl} c0 {hx(b'k-a')} abs:a/file.bin",
+               f"link_to {fl} c0 {hx(b'k-b')} abs:b/file.bin"]; ci = len(ops) - 1
+        ops += [f"stat {cp}", "del a/file.bin", f"read {fl} c0 {hx(b'k-b')}", f"read_hash {'a' if fl == 's' else 's'} c0 {st}"]
+        progs.append(Program(f"linkvs-twins-{fl}", ops, tags={"linkvs": ci, "kind": "ok", "data": d, "expect_stat": "symlink",
+                                                              "reads": [ci + 3, ci + 4], "variety": ("linkvs", "twins", fl)}))
+    return progs
+
+
+def mon_link_vs_written(rr):
+    out = []
+    t = rr.prog.tags
+    ci, d = t["linkvs"], t["data"]
+    if len(rr.impl) < len(rr.prog.ops):
+        return out
+    sig = {"mode": "linkvs", "shape": t["variety"][1], "decl": t["kind"]}
+    res = toks(rr.impl[ci])
+    want = {"ok": ["ok"], "size": ["err", "size"], "sri": ["err", "integrity"]}[t["kind"]]
+    if res[:len(want)] != want:
+        out.append(Failure("wrong_commit_result", ci, f"link commit with a {t['kind']} declaration -> {' '.join(res[:3])[:40]}", sig=sig))
+    if toks(rr.impl[ci + 1])[:2] != ["ok", t["expect_stat"]]:
+        out.append(Failure("address_changed_kind", ci + 1, f"after the link commit the content address is {norm(rr.impl[ci + 1])[:30]}, "
+                           f"expected a {t['expect_stat']}", sig=sig))
+    for j in t["reads"]:
+        r_ = toks(rr.impl[j])
+        if r_[0] != "ok" or unhx(r_[1]) != d:
+            out.append(Failure("stale_or_missing", j, f"`{rr.prog.ops[j][:34]}` after `{rr.prog.ops[ci + 2][:24]}` -> {' '.join(r_[:3])[:50]}", sig=sig))
+            break
+    return out
+
+
 def gen_linked_removal_programs():
     """What a removal does to a LINKED entry (the content path is a symlink to the caller's file) and to an inode shared
     with an extraction: `remove_hash`, `remove_fully`, `remove` take away the cache's own names - the link, the record -
